@@ -246,6 +246,24 @@ func c18Check(s svcContents, roots [][2]string) (fails []string, resolves int) {
 		if da, dl := graphDump(ga, erra), graphDump(gl, errl); da != dl {
 			fail("resolve", fmt.Sprintf("Resolve(%s@%s) through the API client gives %s; the same data in a LocalClient gives %s", root[0], root[1], da, dl))
 		}
+		// a resolution leaves what the clients serve as it was: the requirements a client hands out are its own
+		// stored values (bundled entries in the API client, everything in the in-memory one), shared with every other
+		// caller; read through every accessor, they must still be the documented mapping afterwards
+		if erra == nil && errl == nil {
+			for _, mv := range model.Vers {
+				vk := model.VK(mv.Pkg, mv.Ver)
+				want := strings.Join(reqSig(model.Requirements(mv)), " ")
+				if rs, err := lc.Requirements(ctxBG, vk); err == nil && strings.Join(reqSig(rs), " ") != want {
+					fail("unchanged", fmt.Sprintf("after Resolve(%s@%s) the in-memory client serves Requirements(%s@%s) = %v, loaded were %s", root[0], root[1], mv.Pkg, mv.Ver, reqSig(rs), want))
+				}
+				if mv.Derived == "" {
+					continue
+				}
+				if rs, err := api.Requirements(ctxBG, vk); err == nil && strings.Join(reqSig(rs), " ") != want {
+					fail("unchanged", fmt.Sprintf("after Resolve(%s@%s) the API client serves Requirements(%s@%s) = %v, the documented mapping gives %s", root[0], root[1], mv.Pkg, mv.Ver, reqSig(rs), want))
+				}
+			}
+		}
 		// after Requirements(root) every bundled entry is served consistently by the four calls
 		api = resolve.NewAPIClient(&fakeInsights{s: s})
 		rootReqs, err := api.Requirements(ctxBG, rvk)
